@@ -391,7 +391,7 @@ pub fn alphabet(two_clients: bool) -> Vec<Op> {
             ops.push(Op::Gcv(c, sel));
         }
         for sel in [IdSel::Nil, IdSel::Latest, IdSel::Ancestor(1), IdSel::Ancestor(4), IdSel::Ancestor(5), IdSel::Base, IdSel::Fresh, IdSel::ForeignAncestor(1), IdSel::SnapVersion] {
-            ops.push(Op::AddSnap(c, sel, 1));
+            ops.push(Op::AddSnap(c, sel, 1 + c));
         }
         ops.push(Op::GetSnap(c));
     }
@@ -450,6 +450,13 @@ pub fn seed_prefixes() -> Vec<Vec<Op>> {
     s.push(Op::Create(1));
     s.push(Op::AddVersion(1, IdSel::ForeignLatest, 1));
     s.push(Op::AddVersion(1, IdSel::Latest, 2));
+    out.push(s);
+    // two clients whose snapshots carry the SAME version id (client1's chain starts at client0's latest version)
+    let mut s = grow(0, 3, IdSel::Nil);
+    s.push(Op::Create(1));
+    s.push(Op::AddVersion(1, IdSel::ForeignLatest, 1));
+    s.push(Op::AddSnap(0, IdSel::Latest, 2));
+    s.push(Op::AddSnap(1, IdSel::Base, 3));
     out.push(s);
     out
 }
